@@ -299,6 +299,40 @@ func runC26(c *eng.Ctx) {
 	}
 	c.Expect("ROUTE-passthrough", 4)
 
+	// ---------------------------------------------------------------- (3b) the form of a POST upload is judged for the bucket it is posted to
+	// The signature verifiers authorise the signer for formValues["Bucket"] and the policy conditions on $bucket are
+	// matched against it; the upload goes to the bucket of the URL. The handler therefore overwrites the form's Bucket
+	// value with the URL's bucket, unconditionally, before either check.
+	if fn := c.NeedFunc("weed/s3api", "(*S3ApiServer).PostPolicyBucketHandler"); fn != nil {
+		fromURL := func(v ssa.Value) bool {
+			return eng.Mentions(v, 12, func(x ssa.Value) bool {
+				lk, ok := x.(*ssa.Lookup)
+				if !ok {
+					return false
+				}
+				k, isK := eng.ConstString(lk.Index)
+				return isK && k == "bucket" && eng.MentionsCall(lk.X, "mux.Vars")
+			})
+		}
+		force := func(in ssa.Instruction) bool {
+			call, ok := in.(*ssa.Call)
+			if !ok || !eng.CalleeIs(call, "http.Header).Set") || len(call.Call.Args) != 3 {
+				return false
+			}
+			k, isK := eng.ConstString(call.Call.Args[1])
+			return isK && k == "Bucket" && fromURL(call.Call.Args[2])
+		}
+		checks := eng.Find(fn, eng.PlainCallTo("s3api.IdentityAccessManagement).doesPolicySignatureMatch", "policy.CheckPostPolicy"))
+		if len(checks) < 2 {
+			c.Undecided("GUARD-post-bucket", eng.FuncName(fn), fn.Pos(), "signature / policy checks not found")
+		}
+		c.Before("GUARD-post-bucket", "form-bucket-is-url-bucket", fn, force, checks, "the form's Bucket value is overwritten with the bucket of the request URL before the signer is authorised for it and before the policy conditions are matched")
+		for i, in := range eng.Find(fn, eng.PlainCallTo("s3api.S3ApiServer).putToFiler")) {
+			c.Ob("GUARD-post-bucket", fmt.Sprintf("%s upload-target#%d", eng.FuncName(fn), i), fromURL(eng.Arg(in.(ssa.CallInstruction), 1)), in.Pos(), "the upload goes to the bucket of the request URL")
+		}
+		c.Expect("GUARD-post-bucket", 3)
+	}
+
 	// ---------------------------------------------------------------- (4) GUARD-auth
 	if auth := c.NeedFunc("weed/s3api", "(*IdentityAccessManagement).Auth"); auth != nil && len(auth.AnonFuncs) == 1 {
 		w := auth.AnonFuncs[0]
